@@ -79,7 +79,15 @@ def run(ctx: Ctx):
         ok = False
         for c in cats:
             a0 = c.args[0]
-            if isinstance(a0, ast.ListComp) and len(a0.generators) == 1 and not a0.generators[0].ifs and ast.unparse(a0.generators[0].iter) == "dl":
+            def is_loader(expr):
+                """the comprehension iterates a DataLoader: the constructor call itself or a local bound to one"""
+                if isinstance(expr, ast.Call) and isinstance(expr.func, ast.Name) and expr.func.id == "DataLoader":
+                    return True
+                if isinstance(expr, ast.Name):
+                    binds = [n for n in ast.walk(fi.node) if isinstance(n, ast.Assign) and any(isinstance(t, ast.Name) and t.id == expr.id for t in n.targets)]
+                    return bool(binds) and all(isinstance(b.value, ast.Call) and isinstance(b.value.func, ast.Name) and b.value.func.id == "DataLoader" for b in binds)
+                return False
+            if isinstance(a0, ast.ListComp) and len(a0.generators) == 1 and not a0.generators[0].ifs and is_loader(a0.generators[0].iter):
                 dim = c.args[1] if len(c.args) > 1 else kw(c, "dim")
                 ok = dim is not None and isinstance(dim, ast.Constant) and dim.value == 0
         ctx.ob("C17.b", f"{fn}:concat-in-order", ok, fi.loc, "torch.cat([f(batch) for batch in dl], 0)", construct=f"{fn}:concat")
@@ -144,11 +152,12 @@ def run(ctx: Ctx):
 
             def is_len_of(x, of):
                 x = unw(x)
-                return isinstance(x, vg.S) and x.op == "meth" and x.args[1] == "size" and len(x.args) == 3 and vg.is_const(x.args[2], -1) and unw(x.args[0]).op == "iter" and unw(unw(x.args[0]).args[0]) is of
+                d = nf.dim_of(x)
+                return d is not None and d[1] == -1 and unw(d[0]).op == "iter" and unw(unw(d[0]).args[0]) is of
 
             if widths.op == "tuple" and len(widths.args) == 2 and vg.is_const(widths.args[0], 0):
                 w = unw(widths.args[1])
-                if w.op == "-" and len(w.args) == 2 and is_len_of(w.args[1], la) and unw(unw(w.args[1]).args[0]) is unw(item):
+                if w.op == "-" and len(w.args) == 2 and is_len_of(w.args[1], la) and unw(nf.dim_of(unw(w.args[1]))[0]) is unw(item):
                     mx = unw(w.args[0])
                     if nf._fn(mx) == "max" and len(mx.args) == 2 and unw(mx.args[1]).op == "comp":
                         src = unw(mx.args[1])
